@@ -913,3 +913,66 @@ func AddEmptyListBlobs(m protoreflect.Message, pos int, typed bool) (n int) {
 	})
 	return n
 }
+
+// RetypeBlobEvents rewrites the event_type of every event inside every (proto3) event blob of m to t, leaving the
+// attributes as they are: what a crafted or corrupted blob looks like (the attributes oneof is independent of
+// event_type on the wire). It returns the number of events changed.
+func RetypeBlobEvents(m protoreflect.Message, t enumspb.EventType) int {
+	n := 0
+	var walk func(m protoreflect.Message)
+	walk = func(m protoreflect.Message) {
+		m.Range(func(fd protoreflect.FieldDescriptor, v protoreflect.Value) bool {
+			if fd.IsMap() {
+				if fd.MapValue().Message() != nil {
+					v.Map().Range(func(_ protoreflect.MapKey, mv protoreflect.Value) bool { walk(mv.Message()); return true })
+				}
+				return true
+			}
+			if fd.Message() == nil {
+				return true
+			}
+			if fd.Message().FullName() == dataBlobName {
+				if !EventBlobFields[string(fd.FullName())] {
+					return true
+				}
+				re := func(bm protoreflect.Message) {
+					blob := bm.Interface().(*commonpb.DataBlob)
+					if blob.EncodingType != enumspb.ENCODING_TYPE_PROTO3 {
+						return
+					}
+					evs, err := DecodeEvents(blob)
+					if err != nil || len(evs) == 0 {
+						return
+					}
+					for _, ev := range evs {
+						if ev.EventType != t {
+							ev.EventType = t
+							n++
+						}
+					}
+					if b, err := proto.Marshal(&historypb.History{Events: evs}); err == nil {
+						blob.Data = b
+					}
+				}
+				if fd.IsList() {
+					for i := 0; i < v.List().Len(); i++ {
+						re(v.List().Get(i).Message())
+					}
+				} else {
+					re(v.Message())
+				}
+				return true
+			}
+			if fd.IsList() {
+				for i := 0; i < v.List().Len(); i++ {
+					walk(v.List().Get(i).Message())
+				}
+			} else {
+				walk(v.Message())
+			}
+			return true
+		})
+	}
+	walk(m)
+	return n
+}
